@@ -272,6 +272,9 @@ func runC12Case(cs int64) map[string]interface{} {
 				res["status"] = "panic"
 				res["site"] = panicSite(string(debug.Stack()))
 				res["value"] = fmt.Sprint(p)
+				if os.Getenv("VERIF_STACK") != "" {
+					res["stack"] = string(debug.Stack())
+				}
 			}
 		}()
 		_, err := runBuild(fs, top, nil)
